@@ -33,11 +33,17 @@ def model_checks(tier):
     return [dict(module='mc/MC_HexDump', must_cover=['Evaluate'])]
 
 
+TEXTY = [ord(c) for c in '0123456789abcdefABCDEF  20 24cafe']
+
+
 def _data(rng, n):
     r = rng.random()
-    if r < .3:
+    if r < .2:
+        # bytes whose ASCII rendering looks like hex dump text itself (digits, hex letters, blanks)
+        return [rng.choice(TEXTY) for _ in range(n)]
+    if r < .45:
         return [rng.choice(BOUND) for _ in range(n)]
-    if r < .4:
+    if r < .55:
         return [(k * 7 + n) & 0xFF for k in range(n)]
     return [rng.randrange(256) for _ in range(n)]
 
